@@ -57,6 +57,10 @@ def run(chk, tier):
             return f"the call did not return normally: {out}"
         return None
     chk.run_family(cfgs, ops, oracle=oracle, cross=True)
+    if quick:
+        # every backend at least once in the dev profile: the types whose code depends on the configuration
+        hot = [op for op in ops if len(op.split(" ")) > 1 and op.split(" ")[1].startswith(("Aes", "Kuz", "Serpent"))]
+        chk.run_family(["forcesoft", "softcompact", "kuzsoft", "kuzcompact", "serpentloop"], hot, oracle=oracle)
     # the 32-bit fixsliced AES backend (executed through #[path]): dev and release, normal and compact — no `panic:` line,
     # and every line equals the model (one wrapping model for both profiles)
     from . import fs32
